@@ -132,6 +132,21 @@ class TLCResult:
         return cov
 
 
+def _wait_for_memory(xmx: str, limit: float = 900.0) -> None:
+    """Hold a TLC start back (up to `limit` seconds) while the machine has less free memory than the heap asked for."""
+    need = (float(xmx[:-1]) * (1 if xmx.endswith('g') else 1 / 1024) + 1.0) * 1024 * 1024      # kB
+    t0 = time.time()
+    while time.time() - t0 < limit:
+        try:
+            with open('/proc/meminfo') as f:
+                avail = next(int(l.split()[1]) for l in f if l.startswith('MemAvailable'))
+        except (OSError, StopIteration, ValueError):
+            return
+        if avail >= need:
+            return
+        time.sleep(3)
+
+
 def tlc(module: str, cfg: str, *, env: dict | None = None, workers: int | str = 1,
         timeout: int = 900, xmx: str = '3g', extra: list | None = None, tag: str = '',
         out_name: str = 'out.json', deque=False, check=True) -> TLCResult:
@@ -160,10 +175,20 @@ def tlc(module: str, cfg: str, *, env: dict | None = None, workers: int | str = 
            '-metadir', str(d / 'meta'), '-noGenerateSpecTE', '-config', f'{module}.cfg',
            *(extra or []), f'{module}.tla']
     t0 = time.time()
-    try:
-        p = subprocess.run(cmd, env=e, cwd=str(d), capture_output=True, text=True, timeout=timeout)
-    except subprocess.TimeoutExpired as ex:
-        raise MachineryError(f'TLC timeout ({timeout}s) on {module} [{tag}]') from ex
+    for attempt in range(4):
+        _wait_for_memory(xmx)
+        try:
+            p = subprocess.run(cmd, env=e, cwd=str(d), capture_output=True, text=True, timeout=timeout)
+        except subprocess.TimeoutExpired as ex:
+            raise MachineryError(f'TLC timeout ({timeout}s) on {module} [{tag}]') from ex
+        # a JVM killed from outside (the kernel's OOM killer when other jobs share the machine) says nothing
+        # about the specification or the code: TLC is deterministic, run it again
+        if p.returncode not in (-9, 137, -15, 143) or attempt == 3:
+            break
+        time.sleep(15 * (attempt + 1))
+        shutil.rmtree(d / 'meta', ignore_errors=True)
+        if out.exists():
+            out.unlink()
     wall = time.time() - t0
     oj = None
     if out.exists() and out_name.endswith('.json'):
